@@ -270,6 +270,27 @@ def _merge_relations(lits):
             op = _REL_INV[rel]
             d = dict(d, op=op, text=x[2].replace("\0", op, 1))
         out.append(d)
+    # x == K1 implies x != K2 for another constant K2: the arm of an else-if chain over an enumeration carries the negations of
+    # the arms before it, the case of a switch does not
+    eqs = [d for d in out if d.get("op") == "==" and len(d["consts"]) == 1]
+    if eqs:
+        def implied(d):
+            if d.get("op") != "!=" or len(d["consts"]) != 1:
+                return False
+            for q in eqs:
+                if q["ids"] == d["ids"] and str(q["consts"][0]) != str(d["consts"][0]):
+                    return True
+                if q["ids"] == d["ids"] and str(q["consts"][0]) == str(d["consts"][0]):
+                    return None
+            return False
+        res = []
+        for d in out:
+            im = implied(d)
+            if im is None:
+                return None     # x == K && x != K
+            if not im:
+                res.append(d)
+        out = res
     return out
 
 
@@ -293,7 +314,7 @@ def inventory(facts):
                 c = strip(n["e"])
                 cal = by_pat.get(c.get("cpat"))
                 if cal is not None and cal is not f and cal.get("body") is not None and cal.get("rect") == f.get("rect") and cal.get("ret") == "void" \
-                        and len(cal.get("params", [])) == len(c.get("args", [])) and (c.get("obj") is None or strip(c["obj"]).get("k") == "This") \
+                        and len(cal.get("params", [])) == len(c.get("args", [])) and (c.get("obj") is None or strip(c["obj"]).get("k") in ("This", "Ref")) \
                         and (cal.get("access", 2) != 0 or cal.get("rect") in struct_like(by_pat)):
                     helper_pats.add(cal["pat"])
         walk(f["body"], hv)
@@ -310,10 +331,17 @@ def inventory(facts):
         ind = induction_locals(fn)
         for c in calls:
             lits = []
+            chain_tail = []
             # input validation (`if (bad) throw`) is not a trigger; neither are the bounds of loop counters
             for l, origin in reach_tagged(fn["body"], c):
                 l = strip(l)
                 if origin == "after-throw":
+                    # ... except the last arm of an equality chain over one subject whose else-branch throws
+                    # (`else if (x == K) {..} else throw` is `if (x != K) throw; ..` after normalisation)
+                    if isinstance(l, dict) and l.get("k") == "Bin" and l.get("op") == "==":
+                        op, ids, consts, text = parts(l, env)
+                        if len(consts) == 1:
+                            chain_tail.append({"op": op, "ids": ids, "consts": consts, "text": text})
                     continue
                 if isinstance(l, dict) and l.get("k") == "Bin" and l.get("op") in FLIP:
                     refs = set()
@@ -347,6 +375,9 @@ def inventory(facts):
                     if any(d["text"] == text for d in lits):
                         continue
                     lits.append({"op": "not" if neg else "is", "ids": sorted(x for x in ids if x), "consts": sorted(consts), "text": text})
+            for t in chain_tail:
+                if any(d["ids"] == t["ids"] and d["op"] == "!=" and len(d["consts"]) == 1 for d in lits) and not any(d["text"] == t["text"] for d in lits):
+                    lits.append(t)
             if not lits:
                 continue
             base = "%s::%s->%s" % (short(fn["rect"]), fn["name"], c["cname"])
@@ -382,6 +413,10 @@ def _cmp(want, got):
     return "discharged", None
 
 
+def _defined_names(facts, cls):
+    return set(f["name"] for f in functions_by(facts).values() if f.get("rect") and short(f["rect"]) == cls)
+
+
 def obligations(facts, records=None):
     """the call sites of one structural operation inside one function are compared as a bag (swapping the branches of an if / else
     that both call it does not matter): exact matches first, then what is left is paired in source order"""
@@ -408,6 +443,11 @@ def obligations(facts, records=None):
         for key in pending:
             want = sp[key]
             k = "trigger:" + key
+            if not free and what not in _defined_names(facts, base.split("::")[0]):
+                # the operation was a helper of this class that no longer exists (inlined by hand): the operations it called
+                # are rows of their own and are compared there
+                out.append(ob("triggers", k, "", "informational", "`%s` is no longer a function of %s (inlined?): the calls of its body are compared as rows of the caller" % (what, base.split("::")[0]), ""))
+                continue
             if not free:
                 out.append(ob("triggers", k, "", "unrecognised", "the call of `%s` under (%s) is no longer found (refactored?): re-review and update spec/triggers.json" % (key, want["text"]), ""))
                 continue
